@@ -1,7 +1,7 @@
 (* C05 — the token tree obeys the documented grammar.  PARTIAL: attribute bounds that follow from the
    regenerated patterns.  The inductive proof over the parser model is not claimed (DESIGN.md). *)
 From Coq Require Import ZArith List Bool Lia.
-From Verif Require Import PyStr Rx RxSpec RxAnalysis RxGroups UnicodeGen RxGen Inline Block BlockProofs BlockTyping BlockLevels BlockGen Doc DocProofs Entry C01.
+From Verif Require Import PyStr Rx RxSpec RxAnalysis RxGroups UnicodeGen RxGen Inline Block BlockProofs BlockTyping BlockLevels BlockDepth BlockGen Doc DocProofs Entry C01.
 Import ListNotations.
 Local Open Scope nat_scope.
 
@@ -70,6 +70,33 @@ Proof.
   unfold toks_ok, lvls_ok in H1, H2. rewrite forallb_forall in H1, H2. unfold btok_ok. rewrite (H1 t Ht), (H2 t Ht). reflexivity.
 Qed.
 
+(* nesting: for every text, the block tree holds at most max_nested_level (regenerated: 6) levels of quotes and lists,
+   and so does the AST of the whole-document model.  Before the repair of finding setext-underline-opens-list-at-depth-limit
+   this statement was false of the model and of the code alike (a staircase of lone '-' lines nested without bound). *)
+Lemma block_cfg_max : forall C, block_cfg = Some C -> b_max_nested C = block_max_nested.
+Proof. intros C H. unfold block_cfg in H. destruct (opt_all _); [|discriminate]. inversion H; subst. reflexivity. Qed.
+
+Theorem C05_nesting_never_exceeds_the_maximum : forall C s toks rf, block_cfg = Some C -> block_parse C s = Ok (toks, rf) ->
+  all_fit block_max_nested toks = true.
+Proof.
+  intros C s toks rf HC H. rewrite <- (block_cfg_max C HC). apply (block_parse_depth C) with (s := s) (rf := rf); [|exact H].
+  rewrite (block_cfg_max C HC). vm_compute. lia.
+Qed.
+
+Theorem C05_document_nesting_never_exceeds_the_maximum : forall px hw s ast, doc_parse_x px hw s = Ok ast ->
+  forallb (nfits block_max_nested) ast = true.
+Proof.
+  intros px hw s ast H. unfold doc_parse_x in H. destruct block_cfg as [CB|] eqn:EB; [|discriminate].
+  destruct (inline_cfg_x px hw []) as [d|]; [|discriminate]. unfold doc_parse, bind in H.
+  destruct (block_parse CB _) as [[toks rf]| |] eqn:Eb; try discriminate.
+  exact (inline_pass_all_fit _ _ toks ast H (C05_nesting_never_exceeds_the_maximum CB _ toks rf EB Eb)).
+Qed.
+
+Example C05_nesting_not_vacuous :
+  fits 2 (BQuote [BList [BListItem [BParagraph [97%Z]]] true 45%Z 1 false None]) = true /\
+  fits 2 (BQuote [BList [BListItem [BQuote []]] true 45%Z 1 false None]) = false /\ block_max_nested = 6.
+Proof. repeat split. Qed.
+
 Example C05_levels_not_vacuous : lvl_ok (BQuote [BHeading [] 7 false]) = false /\ lvl_ok (BList [BListItem [BHeading [] 6 false]] true 45%Z 0 false None) = true.
 Proof. split; reflexivity. Qed.
 
@@ -83,3 +110,5 @@ Print Assumptions C05_list_marker_bounded.
 Print Assumptions C05_block_tree_is_well_typed.
 Print Assumptions C05_heading_levels_are_1_to_6.
 Print Assumptions C05_document_ast_is_well_typed.
+Print Assumptions C05_nesting_never_exceeds_the_maximum.
+Print Assumptions C05_document_nesting_never_exceeds_the_maximum.
